@@ -1,7 +1,20 @@
 """storesim as a core.Engine"""
 import copy
+import json
 from ..core import Engine
 from . import executor, judge as J, scen
+
+
+def _strip_numbering(o):
+    import re
+    s = json.dumps(o)
+    s = re.sub(r'"run": "\d+\.\d+"', '"run": "#"', s)
+    s = re.sub(r'marker \d+\.\d+', 'marker #', s)
+    s = re.sub(r'"marker": "\d+\.\d+"', '"marker": "#"', s)
+    s = re.sub(r'"(started|ended)": (\d+|"[^"]*")', r'"\1": "#"', s)
+    s = re.sub(r'"clock": \[\d+, \d+\]', '"clock": "#"', s)
+    s = re.sub(r'"time": [0-9.e+-]+', '"time": "#"', s)
+    return json.loads(s)
 
 
 class StoreEngine(Engine):
@@ -15,7 +28,11 @@ class StoreEngine(Engine):
         if ctx is not None:
             ctx.close()
 
+    explicit = None
+
     def generate(self, profile, rng, index):
+        if profile.startswith('explicit'):
+            return copy.deepcopy(self.explicit[index])
         return self.GENERATORS[profile](rng)
 
     def execute(self, scn, ctx):
@@ -40,6 +57,25 @@ class StoreEngine(Engine):
 
     def size(self, scn):
         return sum(len(p['ops']) for p in scn['procs'])
+
+    def canon_obs(self, scn, obs):
+        # Chain.force(recompute=True) iterates a set of task objects (address order): the order of the runs inside such an
+        # operation is not constrained by any property -> compared as a sorted multiset without run ids / clock readings
+        setops = {op['i'] for p in scn['procs'] for op in p['ops'] if op['op'] in ('cforce', 'mforce') and (op.get('recompute') or op.get('delete'))}
+        out = []
+        tainted_after = None
+        for o in obs:
+            if o.get('i') in setops:
+                o = dict(o)
+                o['inv'] = sorted([r['task'], r.get('key'), r.get('h')] for r in o.get('inv', []))
+                o['fs'] = sorted(set(map(str, o.get('fs', []))))   # set: pathlib retries mkdir when a parent is missing
+                o.pop('clock', None)
+                tainted_after = o['i']
+            elif tainted_after is not None:
+                # run ids and clock ticks after a set-ordered recompute depend on that order only in their numbering
+                o = _strip_numbering(o)
+            out.append(o)
+        return out
 
     def sample(self, scn, obs):
         return {'classes': [[c['slug'], c['kind'], c['style']] for c in scn['world']['classes']],
